@@ -24,6 +24,7 @@ type caseT struct {
 	Prec          []lalr.Precedence `json:"prec,omitempty"`
 	DefaultReduce bool             `json:"default_reduce"`
 	Minimize      bool             `json:"minimize"`
+	Synth         *synthCase       `json:"synth,omitempty"`
 }
 
 func main() { core.Main("C05", "exploration", run, replay, nil) }
@@ -182,7 +183,7 @@ func compileAndCheck(k caseT, cnt *counters) (string, string) {
 }
 
 func run(c *core.Ctx) {
-	c.Rule("every rule set of the scope (raw, conflicting grammars included; terminal symmetry broken) x input configurations x {no precedence, two precedence declarations with %nonassoc} x defaultReduce{off,on} x minimizeDFA{off,on}: every (state,terminal) action, every defined (state,nonterminal) goto and every terminal gotoState decoded from the compressed tables vs the default encoding; plus scaled families (wide/deep/many terminals) reaching int16 tables and the binary-search goto; non-trivial = compile with >=1 lookahead-dependent state")
+	c.Rule("every rule set of the scope (raw, conflicting grammars included; terminal symmetry broken) x input configurations x {no precedence, two precedence declarations with %nonassoc} x defaultReduce{off,on} x minimizeDFA{off,on}: every (state,terminal) action, every defined (state,nonterminal) goto and every terminal gotoState decoded from the compressed tables vs the default encoding; plus scaled families (wide/deep/many terminals) reaching int16 tables and the binary-search goto; plus synthetic default-encoding tables (34 states, two lookahead rows over all position pairs and an action alphabet containing packer-hash collisions); non-trivial = compile with >=1 lookahead-dependent state")
 	var cnt counters
 	var nontrivial int64
 	process := func(g *gramenum.Gram) {
@@ -190,7 +191,7 @@ func run(c *core.Ctx) {
 			for pi, prec := range precVariants(g) {
 				for _, dr := range []bool{false, true} {
 					for _, mn := range []bool{false, true} {
-						k := caseT{g.String(), g, inputs, prec, dr, mn}
+						k := caseT{g.String(), g, inputs, prec, dr, mn, nil}
 						before := atomic.LoadInt64(&cnt.lalrStates)
 						key, msg := compileAndCheck(k, &cnt)
 						c.Eval(1)
@@ -208,6 +209,7 @@ func run(c *core.Ctx) {
 			}
 		}
 	}
+	synthFamily(c, &cnt)
 	for _, fam := range families(c.Quick()) {
 		process(fam)
 		c.Add("family_grammars", 1)
@@ -293,6 +295,12 @@ func replay(c *core.Ctx, raw json.RawMessage) error {
 		return err
 	}
 	var cnt counters
+	if k.Synth != nil {
+		if key, msg := synthCheck(k.Synth, k.DefaultReduce, &cnt); key != "" {
+			return fmt.Errorf("%s: %s", key, msg)
+		}
+		return nil
+	}
 	if key, msg := compileAndCheck(k, &cnt); key != "" {
 		return fmt.Errorf("%s: %s", key, msg)
 	}
